@@ -461,6 +461,18 @@ class Walker:
                         else:
                             st["vecs"][tgt] = None
                     continue
+                # `v.reverse()`: the vector now lists what it holds the other way round -- and if it mirrors pops, the pops
+                # are its elements last to first from here on
+                if e["k"] == "MethodCall" and e["method"] == "reverse" and e["recv"]["k"] == "Path" and not e["args"]:
+                    v_ = e["recv"]["path"]
+                    if v_ in st["vecs"] and st["vecs"][v_] is not None:
+                        st["vecs"][v_] = reverse(st["vecs"][v_])
+                    if st["popped"] is not None:
+                        flip = {"fwd": "rev", "rev": "fwd"}
+                        st["popped"] = [tuple([flip[x[0]]] + list(x[1:])) if isinstance(x, tuple) and x[0] in flip and x[1] == v_ else x for x in st["popped"]]
+                        if v_ in st["vecs"] and st["vecs"][v_] is not None:
+                            st["vecs"][v_] = [("fwd", v_)] if any(isinstance(x, tuple) and x[1] == v_ for x in st["popped"]) else st["vecs"][v_]
+                    continue
                 # vec pushes outside loops
                 if e["k"] == "MethodCall" and e["method"] == "push" and e["recv"]["k"] == "Path" and e["recv"]["path"] in st["vecs"] and e["args"]:
                     if st["vecs"][e["recv"]["path"]] is not None:
